@@ -392,8 +392,8 @@ pub fn diff(kind: &str, stage: &str, want: &Content, got: &Content, file: &[u8],
         let cls = class_of(k);
         match got.get(k) {
             None => {
-                let note = if detected_lower && version_gated(&cls) { ":version-detected-lower" } else { "" };
-                add(format!("{kind}-lost:{cls}{note}"), format!("{k} ({} bytes) is gone", w.len()))
+                let note = if detected_lower && version_gated(&cls) { "@version-detected-lower" } else { "" };
+                add(format!("{kind}-lost{note}:{cls}"), format!("{k} ({} bytes) is gone", w.len()))
             }
             Some(g) if g == w => {}
             Some(g) => {
